@@ -250,7 +250,7 @@ class Builtins:
             return k(st, T_SV(t, res))
         return ex.ev_list(st, [e.value] + parts, cx, f)
 
-    def listcomp(self, st, e, cx, k):
+    def listcomp(self, st, e, cx, k, ety=None):
         """[elt for v in xs] over a list xs, no filter: a fresh list of the same length whose j-th element is elt at
         v = xs[j] (elt must be effect-free and total: it is evaluated once, at a symbolic index)."""
         ex = self.ex
@@ -269,6 +269,8 @@ class Builtins:
             xv = SV(xs.ty.args[0], ex.select(arr, j))
             prev = st.vars.get(g.target.id)
             body = ex.pure(st.setvar(g.target.id, xv), e.elt, cx)
+            if ety is not None and body.ty != ety:
+                body = ex.coerce(body, ety, 'comprehension element')
             s2, r = ex.new_list(st, T.lst(body.ty), ex.list_len(st, xs), z3.Lambda([j], body.z), 'comp')
             return k(s2, r)
         return ex.ev(st, g.iter, cx, f)
